@@ -28,7 +28,7 @@ UNITS_PENDING_MATH = ()     # (was ('param_eyr',) until a388a51: eyring_equation
 API_TEMPLATES = ('arg_by_name', 'eq', 'rate_coeff', 'named_keys', 'ma_from_callback', 'ma_subclass_from_callback', 'uw_from_callback',
                  'uw_nargs', 'init_refusals', 'g_value', 'equilibrium', 'gibbs_equilibrium', 'eq_from_callback', 'rxn_param_expr',
                  'rxn_param_str', 'rxn_param_number')
-SYMPY_OPERANDS = ('symbol', 'float', 'add2', 'mul2', 'mulfloat', 'pow', 'powfloat', 'mul3', 'integer', 'rational', 'nested', 'left')
+SYMPY_OPERANDS = ('symbol', 'float', 'add2', 'mul2', 'mulfloat', 'pow', 'powfloat', 'mul3', 'add3', 'integer', 'rational', 'nested', 'left')
 SYMPY_PENDING = ()            # (was ('pow',) until the fix of _implicit_conversion(sympy.Pow): _PowExpr([base, exp]))
 DROPS = ('Poly', 'Piecewise', 'GibbsEqConst', 'EyringHS', 'Radiolytic')
 NEEDS_RXN = ('MassAction', 'Eyring', 'EyringHS')
@@ -419,6 +419,11 @@ class Gen:
         if o == 'pow':
             return self.power(a, ta, depth)
         b, tb = self.operand(depth - 1, q2)
+        if o == 'add' and rng.random() < 0.06:
+            z0 = rng.random() < 0.5
+            b = {'t': 'new', 'k': {'c': 'Mul'}, 'args': {'l': [{'t': 'num', 'v': (3 if self.mode == 'rat' else 3.0)},
+                 {'t': 'new', 'k': {'c': 'Constant'}, 'args': {'l': [{'t': 'num', 'v': (0 if z0 else 2) if self.mode == 'rat' else (0.0 if z0 else 2.0)}]}, 'uk': None}]}, 'uk': None}
+            tb = 'I' if self.mode == 'rat' else 'F'
         if o in ('div', 'mul') and rng.random() < 0.12:
             b, tb = {'t': 'num', 'v': 1 if self.mode == 'rat' else 1.0}, ('I' if self.mode == 'rat' else 'F')    # x / 1, x * 1 return x
             if self.mode == 'rat' and o == 'div':
@@ -644,6 +649,8 @@ class Real:
         if c == 'Radiolytic':
             names = k['names']
             return RT.mk_Radiolytic(*[n for n in names]) if names != [''] else RT.mk_Radiolytic()
+        if c == 'Mul':
+            return E._MulExpr
         for mod in (E, RT, TE):
             if hasattr(mod, c):
                 return getattr(mod, c)
@@ -673,9 +680,13 @@ class Real:
             return {'add': operator.add, 'sub': operator.sub, 'mul': operator.mul, 'div': operator.truediv,
                     'pow': operator.pow}[p['o']](a, b)
         if t == 'arrp':
+            if p['uk'] is not None and len(p['uk']) > 2:
+                raise Skip('more unique keys than arguments: refused by Expr.__init__')
             from chempy.kinetics.arrhenius import ArrheniusParam
             return ArrheniusParam(self.num(p['A']), self.num(p['Ea'])).as_RateExpr(None if p['uk'] is None else tuple(p['uk']))
         if t == 'eyrp':
+            if p['uk'] is not None and len(p['uk']) > 3:
+                raise Skip('more unique keys than arguments: refused by Expr.__init__')
             from chempy.kinetics.eyring import EyringParam
             return EyringParam(self.num(p['dH']), self.num(p['dS'])).as_RateExpr(None if p['uk'] is None else tuple(p['uk']))
         raise KeyError(t)
@@ -786,12 +797,12 @@ class C16(Property):
                ('chempy/util/_expr.py', 'Expr.__truediv__'), ('chempy/util/_expr.py', 'Expr.__neg__'), ('chempy/util/_expr.py', 'Expr.__rsub__'),
                ('chempy/util/_expr.py', 'Expr.__rtruediv__'), ('chempy/util/_expr.py', 'Expr.__pow__'), ('chempy/util/_expr.py', 'Expr.__rpow__'),
                ('chempy/util/_expr.py', 'Expr.__eq__'), ('chempy/util/_expr.py', 'Expr.from_callback'),
-               ('chempy/util/_expr.py', 'UnaryWrapper'), ('chempy/util/_expr.py', '_NegExpr'), ('chempy/util/_expr.py', '_BinaryExpr'),
-               ('chempy/util/_expr.py', '_MulExpr'), ('chempy/util/_expr.py', 'Constant'), ('chempy/util/_expr.py', 'Symbol'),
+               ('chempy/util/_expr.py', 'UnaryWrapper'), ('chempy/util/_expr.py', '_NegExpr.__call__'), ('chempy/util/_expr.py', '_NegExpr.rate_coeff'), ('chempy/util/_expr.py', '_BinaryExpr.__call__'), ('chempy/util/_expr.py', '_BinaryExpr.rate_coeff'),
+               ('chempy/util/_expr.py', '_MulExpr'), ('chempy/util/_expr.py', 'Constant.trivially_zero'), ('chempy/util/_expr.py', 'Constant.__call__'), ('chempy/util/_expr.py', 'Constant.rate_coeff'), ('chempy/util/_expr.py', 'Symbol.__call__'),
                ('chempy/util/_expr.py', 'UnaryFunction'), ('chempy/util/_expr.py', 'Log10'), ('chempy/util/_expr.py', 'create_Piecewise'), ('chempy/util/_expr.py', 'create_Poly'),
-               ('chempy/kinetics/rates.py', 'mk_Radiolytic'), ('chempy/kinetics/rates.py', 'MassAction'), ('chempy/kinetics/rates.py', 'Arrhenius'),
-               ('chempy/kinetics/rates.py', 'Eyring'), ('chempy/kinetics/rates.py', 'EyringHS'), ('chempy/kinetics/rates.py', 'RampedTemp'),
-               ('chempy/kinetics/rates.py', 'SinTemp'), ('chempy/thermodynamics/expressions.py', 'MassActionEq'),
+               ('chempy/kinetics/rates.py', 'mk_Radiolytic'), ('chempy/kinetics/rates.py', 'MassAction.active_conc_prod'), ('chempy/kinetics/rates.py', 'MassAction.rate_coeff'), ('chempy/kinetics/rates.py', 'MassAction.__call__'), ('chempy/kinetics/rates.py', 'MassAction.from_callback'), ('chempy/kinetics/rates.py', 'MassAction.subclass_from_callback'), ('chempy/kinetics/rates.py', 'MassAction.get_named_keys'), ('chempy/kinetics/rates.py', 'Arrhenius.__call__'),
+               ('chempy/kinetics/rates.py', 'Eyring.__call__'), ('chempy/kinetics/rates.py', 'EyringHS.__call__'), ('chempy/kinetics/rates.py', 'RampedTemp.__call__'),
+               ('chempy/kinetics/rates.py', 'SinTemp.__call__'), ('chempy/thermodynamics/expressions.py', 'MassActionEq'),
                ('chempy/thermodynamics/expressions.py', 'GibbsEqConst'), ('chempy/kinetics/arrhenius.py', 'ArrheniusParam.as_RateExpr'),
                ('chempy/kinetics/eyring.py', 'EyringParam.as_RateExpr'), ('chempy/kinetics/_rates.py', None),
                ('chempy/chemistry.py', 'Reaction.order'), ('chempy/chemistry.py', 'Reaction.rate_expr'))
@@ -1223,6 +1234,10 @@ class C16(Property):
             return args[0] * concprod()
         if c == 'MassActionEq':
             return args[0]
+        if c == 'Mul':
+            if len(args) != 2:
+                raise Skip('arity')
+            return args[0] * args[1]
         if c == 'Arrhenius':
             return args[0] * be.exp(-args[1] / V('temperature'))
         if c == 'Eyring':
@@ -1380,7 +1395,7 @@ class C16(Property):
             'symbol': (y, vals['y'], False), 'float': (sympy.Float(cc), cc, False), 'add2': (y + z, vals['y'] + vals['z'], False),
             'mul2': (y * z, vals['y'] * vals['z'], False), 'mulfloat': (sympy.Float(cc) * y, cc * vals['y'], False),
             'pow': (y ** z, vals['y'] ** vals['z'], False), 'powfloat': (y ** sympy.Float(2.0), vals['y'] ** 2.0, False),
-            'left': (y, vals['y'], False), 'mul3': (sympy.Float(cc) * y * z, None, True),
+            'left': (y, vals['y'], False), 'mul3': (sympy.Float(cc) * y * z, None, True), 'add3': (sympy.Float(cc) + y + z, None, True),
             'integer': (sympy.Integer(2) * y, None, True), 'rational': (sympy.Rational(1, 2), None, True),
             'nested': ((y + sympy.Float(cc)) * z, (vals['y'] + cc) * vals['z'], False)}[kind]
         x = Symbol(unique_keys=('x',))
@@ -1450,6 +1465,10 @@ class C16(Property):
                     for j, y in enumerate(l2):
                         if (x == y) != (i == j or {i, j} == {0, 4}):
                             return bad('%r == %r is %r' % (x, y, x == y))
+                from chempy.util._expr import create_Poly
+                PX = create_Poly('x')
+                if PX([a[0], a[1]]) == PX([a[0], a[1], a[2]]) or not (PX([a[0], a[1]]) == PX([a[0], a[1]])):
+                    return bad('polynomials with different numbers of coefficients / equal coefficients')
                 if MassAction.fk('kf') == MassAction.fk('kb') or MassAction.fk('kf') == MassAction([a[0]]) or \
                         MassAction([a[0]]) == MassAction.fk('kf') or Arrhenius([a[0], a[1]]) == Arrhenius([a[0], a[2]]):
                     return bad('unequal expressions compare equal')
@@ -1519,6 +1538,11 @@ class C16(Property):
                         return bad('%s: not refused' % what)
                     except ValueError:
                         pass
+                try:
+                    MassAction.fk('kf')(v, reaction=rxn)
+                    return bad('a key-only MassAction without its key in the variables was evaluated')
+                except KeyError:
+                    pass
                 if MassAction('kname')(dict(v, kname=a[0]), reaction=rxn) != a[0] * prod and \
                         not close(float(MassAction('kname')(dict(v, kname=a[0]), reaction=rxn)), a[0] * prod, 1e-12):
                     return bad("MassAction('kname') does not look its str argument up in the variables")
@@ -1628,6 +1652,10 @@ class C16(Property):
                 for nm, gi in zip(names, g):
                     if 'doserate_' + nm not in gv or gv['doserate_' + nm] != gi:
                         return 'mk_Radiolytic%r(%s).g_values() = %r: the yield of %s is %r' % (tuple(names), how, dict(gv), nm, gi)
+            dims = by_list.args_dimensionality(None)      # a yield is an amount per energy (mol/J = mol s2 kg-1 m-2), one entry per yield
+            want_dim = {'length': -2, 'mass': -1, 'time': 2, 'amount': 1}
+            if len(dims) != len(names) or any({k: v for k, v in d.items() if v != 0} != want_dim for d in dims):
+                return 'mk_Radiolytic%r.args_dimensionality() = %r, expected amount/energy for each of the %d yields' % (tuple(names), dims, len(names))
             vq = {'density': rho * u.kg / u.dm3}
             for nm, d in zip(names, dr):
                 vq['doserate_' + nm] = d * u.Gy / u.s
